@@ -105,6 +105,12 @@ Step ==
      THEN \* C16 with two samples racing: once both have returned, the last value delivered equals the estimate
           /\ UNCHANGED <<ok, cfg, st>>
           /\ e.last # e.est => Rej(e, "notify", "two concurrent samples: the last value delivered to the listener differs from EstimatedLimit", [est |-> e.est, last |-> e.last])
+     ELSE IF e.ev = "Race"
+     THEN \* C06 / C07 with two samples racing (one parked while it emits its metrics): OnSample is atomic, i.e. the
+          \* estimate once both have returned is the one some serial order of the two produces on identically prepared twins
+          /\ UNCHANGED <<ok, cfg, st>>
+          /\ (e.est # e.ab /\ e.est # e.ba) => Rej(e, IF e.anydrop THEN "loss" ELSE "demand",
+                                                   "two concurrent samples: the estimate is the result of neither serial order", [ab |-> e.ab, ba |-> e.ba])
      ELSE IF ~ok THEN UNCHANGED <<ok, cfg, st>>
      ELSE IF e.ev = "Register" THEN st' = [st EXCEPT !.listeners = e.listeners] /\ UNCHANGED <<ok, cfg>>
      ELSE IF e.ev = "RunEnd"
